@@ -61,11 +61,11 @@ pub fn check(h: &History, st: &mut Stats) -> CheckResult {
     let mut rate_high = kind.is_high(cur.k, cur.r);
 
     for (opi, op) in h.ops.iter().enumerate() {
-        if let Op::Recycle { kind: k2, eng: e2, cfg } = op {
+        if let Op::Recycle { kind: k2, eng: e2, cfg, same } = op {
             if kind == Kind::Rs {
                 continue;
             }
-            let c2 = cfg.orient(*k2);
+            let c2 = recycle_cfg(*k2, cfg, *same, cur);
             subject = match crate::runner::no_panic(|| subject.recycle(*k2, *e2, c2)) {
                 Ok(Ok(o)) => o,
                 Ok(Err(e)) => fail!("op {opi}: new(Some(work)) with supported configuration {c2:?} failed: {e:?}"),
